@@ -5,6 +5,7 @@
 package main
 
 import (
+	"encoding/binary"
 	"encoding/hex"
 	"fmt"
 	"math/rand"
@@ -467,19 +468,29 @@ func startCapture(group net.IP, port int) *capture {
 		return c
 	}
 	syscall.SetsockoptTimeval(fd, syscall.SOL_SOCKET, syscall.SO_RCVTIMEO, &syscall.Timeval{Usec: 20000})
+	syscall.SetsockoptInt(fd, syscall.SOL_SOCKET, syscall.SO_TIMESTAMPNS, 1) // kernel transmit time of the request
 	c.fd, c.ok = fd, true
 	go func() {
 		defer syscall.Close(fd)
 		buf := make([]byte, 65536)
+		oob := make([]byte, 256)
 		for {
 			select {
 			case <-c.stop:
 				return
 			default:
 			}
-			n, from, err := syscall.Recvfrom(fd, buf, 0)
+			n, oobn, _, from, err := syscall.Recvmsg(fd, buf, oob, 0)
 			if err != nil || n < 14+20+8+6 {
 				continue
+			}
+			at := time.Now().UnixNano()
+			if msgs, err := syscall.ParseSocketControlMessage(oob[:oobn]); err == nil {
+				for _, m := range msgs {
+					if m.Header.Level == syscall.SOL_SOCKET && m.Header.Type == syscall.SO_TIMESTAMPNS && len(m.Data) >= 16 {
+						at = int64(binary.LittleEndian.Uint64(m.Data[0:8]))*1e9 + int64(binary.LittleEndian.Uint64(m.Data[8:16]))
+					}
+				}
 			}
 			ll, _ := from.(*syscall.SockaddrLinklayer)
 			if ll == nil || ll.Pkttype != 4 { // PACKET_OUTGOING
@@ -500,7 +511,7 @@ func startCapture(group net.IP, port int) *capture {
 			}
 			pl := udp[8:]
 			if len(pl) >= 6 && pl[0] == 6 && pl[1] == 0x10 && pl[2] == 0x02 && pl[3] == 0x01 {
-				c.first.CompareAndSwap(0, time.Now().UnixNano())
+				c.first.CompareAndSwap(0, at)
 				atomic.AddInt64(&c.count, 1)
 				atomic.AddInt64(&nCaptured, 1)
 				select {
